@@ -15,6 +15,9 @@ func (w *SrvWorld) postRun(rec *RunRecord) {
 	}
 	held, waiting := lockState()
 	for _, h := range held {
+		if w.lockLeakReported {
+			break
+		}
 		w.K.Violate(&Violation{Property: "C18", Class: "lock-held-at-idle", Key: kv("site", h), Detail: "lock still held at the end of the run, acquired at " + h})
 	}
 	for _, wt := range waiting {
